@@ -129,10 +129,13 @@ func genConvGeom(rt *rapid.T) convGeom {
 		ke := (g.k[a]-1)*g.dil[a] + 1
 		switch g.autoPad {
 		case "SAME_UPPER", "SAME_LOWER":
-			if g.stride[a] > ke {
-				g.stride[a] = ke // ONNX leaves the negative-padding case to the runtime
+			if g.stride[a] > ke && rapid.IntRange(0, 2).Draw(rt, "wideStride") > 0 {
+				// a stride beyond the dilated kernel makes the SAME formula negative for some input
+				// extents; runtimes clamp the padding at 0 (the reference does), so such cases
+				// are kept at a lower rate: computed with clamped pads, or refused
+				g.stride[a] = ke
 			}
-			g.in[a] = rapid.IntRange(1, 8).Draw(rt, "in")
+			g.in[a] = rapid.IntRange(1, 9).Draw(rt, "in")
 		case "VALID":
 			g.in[a] = rapid.IntRange(ke, ke+5).Draw(rt, "in")
 		default:
